@@ -47,6 +47,12 @@ SPEC = {
             "cold-start:<function>:<law>) and must equal a warm single-threaded repeat in the same process (cold-start:<function>:first-call-"
             "differs-from-warm-repeat); every 4th child leaves through exit() (leak check), ThreadSanitizer watches the tsan children. "
             "First-call overlap is measured with relaxed atomic counters (counters cold_processes_with_first_call_overlap). "
+            "Prior history (16 asan processes): for every entry of the shared catalogue of ~280 earlier unrelated uses of phosg's helpers (one "
+            "string_printf output of every length 0..132 and around every power of two up to 1 MiB, runs of 5000 short outputs, join / split / fgets "
+            "ladders, escapers, formatters, hash hex) plus two-step histories, a fresh thread runs the prior and then ~85 records short to long: "
+            "encode+decode both alphabets, valid and corrupted decodes, rot13, escape_url x2, escape_controls x2, escape_quotes (every byte escaped / "
+            "nothing escaped / mixed; over the shards every length 0..40 for every function, plus 63..5000) and netloc triples; judged like the main "
+            "stage (keys <function>:prior-history:<family>:<law>). "
             "distinct_nontrivial = distinct (function, alphabet/mode, input shape, outcome / malformation reason) classes.",
     "level_text": "Strictness and inverse-ness are decided on completely enumerated small scopes (all short byte strings; all 4- and "
                   "8-character strings over a reduced alphabet that contains valid, padding, cross-alphabet, invalid, NUL and high "
@@ -64,6 +70,9 @@ SPEC = {
         # same under ThreadSanitizer (an unsynchronised first-use initialisation is a race whatever values come out)
         {"kind": "py", "name": "c11-cold", "tag": "c11-cold", "func": "c11:stage_cold", "variant": "asan", "class_prefix": "cold:"},
         {"kind": "py", "name": "c11-cold-tsan", "tag": "c11-cold-tsan", "func": "c11:stage_cold", "variant": "tsan", "class_prefix": "cold-tsan:"},
+        # prior history: fresh thread -> one earlier unrelated use of phosg's shared helpers (catalogue harness/vf_history.hh,
+        # spread over 16 processes) -> a mini-workload of every C11 function, judged by the Python oracle like the main stage
+        {"kind": "py", "name": "c11-hist", "tag": "c11-hist", "func": "c11:stage_hist", "variant": "asan", "class_prefix": "hist:"},
     ],
     "min_evaluations": 1000000,
     "min_classes": {"quick": 120, "thorough": 120},
@@ -113,6 +122,10 @@ SPEC = {
         "cold-tsan:first-call:rot13:*", "cold-tsan:first-call:escape_url:flag0", "cold-tsan:first-call:escape_controls:flag0",
         "cold-tsan:first-call:escape_controls:flag1", "cold-tsan:first-call:escape_quotes:*", "cold-tsan:first-call:netloc:*",
         "cold-tsan:first-call:trial-kind:same", "cold-tsan:first-call:threads2", "cold-tsan:first-call:threads8",
+        "hist:prior:none:judged-by-python", "hist:prior:printf-len:judged-by-python", "hist:prior:printf-run:judged-by-python",
+        "hist:prior:join:judged-by-python", "hist:prior:split:judged-by-python", "hist:prior:fgets:judged-by-python",
+        "hist:prior:escape:judged-by-python", "hist:prior:format:judged-by-python", "hist:prior:hash-hex:judged-by-python",
+        "hist:prior:two-step:judged-by-python", "hist:prior:printf-len:executed", "hist:prior:printf-run:executed", "hist:results-judged-by-python",
     ],
     "exhaustive": {"quick": False, "thorough": False},
     "exhaustive_note": "enumerated completely: byte strings of length 0..2 for every function; 4-character strings over 11 symbols "
